@@ -223,3 +223,35 @@ func ForwardsPrefs(n *CandidateNode, p walkPreferences) int {
 	p.Deep = true
 	return walk(n, p)
 }
+
+// VarIndexUnbounded: an index computed from input with no test against len.
+func VarIndexUnbounded(n *CandidateNode, want int) *CandidateNode {
+	if want < 0 {
+		want = len(n.Content) + want
+	}
+	return n.Content[want]
+}
+
+// VarIndexOtherLen: bounded by the length of a different slice.
+func VarIndexOtherLen(a, b *CandidateNode) int {
+	total := 0
+	for i := 0; i < len(a.Content); i++ {
+		total += len(b.Content[i].Value)
+	}
+	return total
+}
+
+// VarIndexRange: the usual loops (must not fire).
+func VarIndexRange(n *CandidateNode) int {
+	total := 0
+	for i := range n.Content {
+		total += len(n.Content[i].Value)
+	}
+	for i := 0; i < len(n.Content); i += 2 {
+		total += len(n.Content[i].Value) + len(n.Content[i+1].Value)
+	}
+	for i := len(n.Content) - 1; i >= 0; i-- {
+		total += len(n.Content[i].Value)
+	}
+	return total
+}
